@@ -35,7 +35,7 @@ SHRINK = {'C03': (60, 25), 'C02': (60, 40)}
 WALL_LIMIT = {('C03', 'quick'): 240, ('C03', 'thorough'): 3000, ('C02', 'quick'): 240, ('C02', 'thorough'): 240}      # one re-execution = ~20 forked crawls
 PROBES = {'C03': ['kill_points_total', 'kill_at_sql', 'kill_at_commit', 'kill_at_request', 'kill_at_delivery', 'kill_before_first_request',
                   'kill_with_in_progress_rows', 'kill_between_status_and_children', 'second_kill', 'resumed_runs', 'concurrency>1',
-                  'workload_fully_enumerated', 'run2_refetch_of_in_progress', 'database_uri', 'sitemaps', 'sitemaps_skipped_start', 'ftp_crawl', 'transient_errors', 'kill_with_error_rows', 'many_input_urls', 'kill_during_input_import']}
+                  'workload_fully_enumerated', 'run2_refetch_of_in_progress', 'database_uri', 'sitemaps', 'sitemaps_skipped_start', 'ftp_crawl', 'transient_errors', 'kill_with_error_rows', 'many_input_urls', 'kill_during_input_import', 'small_tries']}
 INFO = {'C03': {
     'rule': 'workload = generated site graph (as C01, depth unlimited) x concurrency 1..3 x schedule; per workload the kill instants '
             '(every SQL statement boundary, every commit boundary, every server request, every delivered segment) are enumerated '
@@ -214,7 +214,11 @@ def run(tape, prop, tier):
             site, starts, pages, assets, redirects = refsite.gen_site(tape, nhosts=nhosts, npages=tape.between(3, 7, 'site.npages'),
                                                                      with_redirects=tape.chance(1, 3, 'site.redirects'))
         site.flaky = []
-        if prop == 'C03' and not ftp and tape.chance(1, 3, 'site.flaky'):
+        if prop == 'C03' and tape.chance(1, 4, 'opt.tries'):
+            # a small --tries: a try that was started but never finished (the process died) must not be counted
+            opts['tries'] = tape.choice((1, 2), 'opt.tries.n')
+            r.probes['small_tries'] += 1
+        if prop == 'C03' and not ftp and opts.get('tries') is None and tape.chance(1, 3, 'site.flaky'):
             # transient failures: the URL is recorded 'error' and retried after the other URLs - or after a kill and rerun
             cand = [p for p in pages if p.origin.key() == starts[0].origin.key()]
             for _ in range(tape.between(1, 2, 'site.flaky.n')):
